@@ -205,6 +205,7 @@ func RunCheckToolCase(cs map[string]any, id int, seed int64, tool, tmp string) R
 	case "negativeTimeout":
 		args[4] = "-timeout=-1s"
 	}
+	shortConfig := ""
 	present, _ := cs["present"].(string)
 	switch present {
 	case "quiet":
@@ -451,8 +452,17 @@ func RunCheckToolCase(cs map[string]any, id int, seed int64, tool, tmp string) R
 			data, _ = proto.Marshal(cfg)
 		}
 		p := filepath.Join(dir, name)
+		if str("fmt") == "binary" { // a short relative path: the tool runs in the directory that holds the file
+			name = []string{"c.pb", "c", "cfg.bin"}[id%3]
+			p = filepath.Join(dir, name)
+			shortConfig = name
+		}
 		os.WriteFile(p, data, 0o600)
-		args = append(args, "-config="+p)
+		if shortConfig != "" {
+			args = append(args, "-config="+shortConfig)
+		} else {
+			args = append(args, "-config="+p)
+		}
 	}
 
 	// an unparsable binary quote comes in several kinds: bytes that are no quote at all, and genuine quotes cut inside the QE authentication
@@ -474,6 +484,9 @@ func RunCheckToolCase(cs map[string]any, id int, seed int64, tool, tmp string) R
 		os.WriteFile(qpath, qbytes, 0o600)
 		cmd := exec.Command(tool, args...)
 		cmd.Env = env
+		if shortConfig != "" {
+			cmd.Dir = dir
+		}
 		var stderr, stdout bytes.Buffer
 		cmd.Stderr, cmd.Stdout = &stderr, &stdout
 		if present == "stdin" {
